@@ -85,7 +85,10 @@ EXC_KINDS = ['ValueError', 'KeyError', 'TypeError', 'AssertionError', 'RuntimeEr
              'LookupError', 'OSError', 'StopIteration', 'Xq9ErrorCustom', 'Xq9ErrorSub', 'TimeoutError', 'ConnectionError',
              'Xq9Timeout', 'NotImplementedError', 'UnicodeError', 'RecursionError', 'ArithmeticError', 'AttributeError',
              'IndexError', 'StopAsyncIteration', 'BufferError', 'PjBaseError', 'PjDeserializationError', 'PjIdentityError',
-             'PjValidationError', 'JSONDecodeError', 'PjValidationErrorLive', 'ValueErrorLive']
+             'PjValidationError', 'JSONDecodeError', 'PjValidationErrorLive', 'ValueErrorLive',
+             'ValueErrorEmpty', 'KeyErrorEmpty', 'AssertionErrorEmpty', 'ValueErrorBlank', 'Xq9EmptyStr', 'ValueErrorMultiline',
+             'Xq9BadRepr']
+LIB_ERROR_NAMES = ['ParseError', 'InvalidRequestError', 'MethodNotFoundError', 'InvalidParamsError', 'InternalError', 'ServerError']
 
 
 def typed_calls(rng: random.Random, full: bool) -> Iterator[Tuple[str, str, List[Any] | Dict[str, Any]]]:
@@ -160,6 +163,13 @@ def typed_calls(rng: random.Random, full: bool) -> Iterator[Tuple[str, str, List
         yield 'rpcerr-misuse', 'rpcerr', p
     for data in RPC_DATA:
         yield 'typed', 'typed', [] if data == '__absent__' else [data]
+    for uid in (0, 'u', None, [1, {'k': 2}]):
+        yield 'typed-own-constructor', 'typedctor', [uid]
+    yield 'typed-own-constructor', 'typedctor', {}
+    for name in LIB_ERROR_NAMES:
+        for data in ('__absent__', None, {'k': [1]}, 'text'):
+            yield 'raises-library-error-class', 'raiselib', [name] if data == '__absent__' else {'name': name, 'data': data}
+    yield 'raises-library-error-class', 'raiselib', ['NoSuchError']
     for kind in EXC_KINDS:
         yield 'boom', 'boom', [kind, f'{kind[:3]}{rng.randrange(1000)}']
     yield 'boom', 'boom', ['NoSuchKind', 'm']
@@ -215,6 +225,11 @@ def make_element(kind: str, pos: int, scheme: str = 'int') -> Any:
     if kind == 'call_rpcerr':
         return obj(id=i, method='rpcerr', params=[1000 + pos, f'msg-{tok}', {'tok': tok}])
     if kind == 'call_typed':
+        # by position: a typed error, a library error class raised by the method, an error with its own constructor
+        if pos % 3 == 1:
+            return obj(id=i, method='raiselib', params=[LIB_ERROR_NAMES[(pos // 3) % 2], tok])
+        if pos % 3 == 2:
+            return obj(id=i, method='typedctor', params=[tok])
         return obj(id=i, method='typed', params=[tok])
     if kind == 'call_exc':
         return obj(id=i, method='boom', params=['ValueError', tok])
